@@ -471,6 +471,8 @@ fn c09_encoder_encode_bookkeeping() {
             assert!(e.writer.count == bytes);
         }
         _ => {
+            // filling a declared total exactly (or staying below it) is never "too many samples"
+            assert!(!matches!(r, Err(Error::ExcessiveTotalSamples)));
             if r.is_ok() {
                 assert!(e.writer.count > bytes && e.writer.count <= bytes + 3);
                 assert!(e.frame_number.0 == 1);
